@@ -429,3 +429,96 @@ def fileOK (pre : List Char) (sitesOf : List Char → List Nat) (resClass : Opti
     ts (os.drop (if concat then ts.length else 0))).all id
 
 end Mk.Decoys
+
+/-! # Second pass
+
+## FASTA input as a writer lays it out (declarative side of "all FASTA inputs": multi-line
+records, descriptions, blank lines, several files, the three newline conventions)
+
+The reader model above (`parseFasta`) is a transcription of the code.  The definitions below
+describe the *input*: a file is a non-empty list of records, a record is a header line
+(`>name`, optionally a blank and a description) followed by any number of sequence lines
+(empty lines allowed, also at the end — a final line end of the file is an empty last line).
+`Props/C18Input.lean` proves that the reader recovers `(name, concatenated lines)` of every
+record of every file, in order. -/
+namespace Mk.Decoys
+
+/-- one record of a FASTA file -/
+structure FastaRec where
+  name : List Char
+  desc : Option (List Char)
+  lines : List (List Char)
+
+/-- the description part of the header line: nothing, or a blank and the description -/
+def descText : Option (List Char) → List Char
+  | none => []
+  | some d => ' ' :: d
+
+/-- the header line without its `>` -/
+def FastaRec.header (r : FastaRec) : List Char := r.name ++ descText r.desc
+
+/-- every sequence line on a line of its own -/
+def linesText (ls : List (List Char)) : List Char := (ls.map (fun l => '\n' :: l)).flatten
+
+/-- what follows the `>` of a record -/
+def FastaRec.body (r : FastaRec) : List Char := r.header ++ linesText r.lines
+
+def FastaRec.text (r : FastaRec) : List Char := '>' :: r.body
+
+/-- the protein the record denotes -/
+def FastaRec.entry (r : FastaRec) : List Char × List Char := (r.name, r.lines.flatten)
+
+/-- text of a file (line ends written as `\n`) -/
+def fastaFileText (rs : List FastaRec) : List Char := joinWith ['\n'] (rs.map FastaRec.text)
+
+/-- newline convention of a file on disk -/
+inductive Eol where
+  | lf
+  | crlf
+  | cr
+
+def crlfChar (c : Char) : List Char := if c = '\n' then ['\r', '\n'] else [c]
+def crChar (c : Char) : Char := if c = '\n' then '\r' else c
+
+/-- the bytes on disk of a text whose line ends are `\n` -/
+def encodeEol : Eol → List Char → List Char
+  | Eol.lf, t => t
+  | Eol.crlf, t => t.flatMap crlfChar
+  | Eol.cr, t => t.map crChar
+
+/-! ## how often the generator is asked (declarative side of the `perms` dict) -/
+
+/-- the interior lengths for which line 398 consults the dict while one protein with the
+given sites is processed, in loop order (`pep_len <= 1: continue` never gets there).
+src: mokapot/parsers/fasta.py:384-398 -/
+def neededLens : List Nat → List Nat
+  | [] => []
+  | [_] => []
+  | s :: e :: rest =>
+    if e - 1 - (s + 1) ≤ 1 then neededLens (e :: rest)
+    else (e - 1 - (s + 1)) :: neededLens (e :: rest)
+
+/-- …while all proteins of one call are processed -/
+def neededLensAll (ends : List Char → List Nat) : List (List Char × List Char) → List Nat
+  | [] => []
+  | p :: ps => neededLens (cleavageSitesOf ends p.2) ++ neededLensAll ends ps
+
+/-- keys of a dict (newest first) after it has been consulted for `lens` in order -/
+def keysAfter : List Nat → List Nat → List Nat
+  | [], keys => keys
+  | n :: lens, keys => keysAfter lens (if n ∈ keys then keys else n :: keys)
+
+/-- number of different interior lengths ≥ 2 -/
+def distinctLens (lens : List Nat) : Nat := (keysAfter lens []).length
+
+/-- **Spec of the number of `np.random.permutation` calls of one `make_decoys` call** whose
+peptide interiors have the lengths `lens`: none under reversal; otherwise between one and a
+hundred per different length, exactly a hundred per length for a generator that only ever
+returns the identity (`allId`: the retry loop gives up), exactly one per length for a
+generator that never returns it (`noneId`). -/
+def callsOK (reverse : Bool) (lens : List Nat) (calls : Nat) (allId noneId : Bool) : Bool :=
+  if reverse then calls == 0
+  else decide (distinctLens lens ≤ calls) && decide (calls ≤ 100 * distinctLens lens) &&
+    (!allId || calls == 100 * distinctLens lens) && (!noneId || calls == distinctLens lens)
+
+end Mk.Decoys
